@@ -10,8 +10,10 @@
 //  h_call                     dispatchValue(CALL) against a symbolic funcAddrs table: rules of C04, call-sequence shape of C03, C16
 //  h_program                  dispatchProgram with the body (dispatchVoid) replaced by an observing contract stub: C16, C03
 //  h_labels                   two routines of symbolic GOTO / IF / MARK statements + popSymbols + backpatch: C04 unknown label, C03 jumps
-//  h_shape_<k>, h_parse_errors  gen() on the tree shapes of error-free parses / on a failed parse: C02
-// One part of the file is compiled per build (-DGR_PART=1..5: registers, call, program, labels, shapes), each with its own capacities.
+//  harness_void_*, harness_gen_ast  every traversal function on every node shape of error-free parses, children stubbed (layer B): C02
+//  h_gen_frame                the real Theo::gen() around an observing gen_ast(): C02
+//  h_shape_<k>                gen_ast() on small whole trees (layer C cross-check): C02
+// One part of the file is compiled per build (-DGR_PART=1..7: registers, call, program, labels, shapes, traversal functions, gen frame), each with its own capacities.
 // Written against the container model only (job option native=False).  Assertion texts contain no double quotes.
 #include "Compiler/src/gen.cpp"
 
@@ -760,30 +762,8 @@ static Node *build_sugar() {
 }
 SHAPE_ENTRY(sugar, 0)
 
-// a failed parse: the errors are forwarded one to one as PARSE_ERROR, nothing is generated from the (partial) tree
-extern "C" void h_parse_errors() {
-  init_names();
-  Node *root = build_assign();
-  AST a; a.parsed_correctly = false; a.root = nondet_bool() ? root : NULL;
-  int n = pick(1, 2);
-  int line[2], file[2];
-  for (int i = 0; i < 2; i++) {
-    SyntaxError e; line[i] = nondet_int(); file[i] = pick(0, 2); e.line = line[i]; e.file = sel3(VN, file[i]); e.msg = sel3(FN, file[i]);
-    if (i < n) a.errors.push_back(e);
-  }
-  CodegenResult r = Theo::gen(a);
-  ASSERT(!r.generated_correctly, "C02: a failed parse is never reported as generated correctly");
-  bool fwd = (int)r.errors.size() == n;
-  for (int i = 0; i < 2; i++) if (i < n && fwd) {
-    const CodegenResult::Error &e = r.errors.u.d[i];
-    fwd = e.t == ET::PARSE_ERROR && e.line == line[i] && e.file == sel3(VN, file[i]) && e.message == sel3(FN, file[i]);
-  }
-  ASSERT(fwd, "C02: the parse errors are forwarded one to one, in order, as PARSE_ERROR with their file, line and text; no other error is added");
-  bool empty = r.code.code.size() == 2 && r.code.code.u.d[0].op == OpCode::PREPARE_EXEC && r.code.code.u.d[1].op == OpCode::HALT &&
-               r.code.line_info.size() == 0 && r.code.potential_breaks.size() == 0 && r.code.stack_maps.size() == 1;
-  ASSERT(empty, "C02: nothing is generated from the tree of a failed parse (the program is PREPARE, HALT)");
-  ASSERT(0, "WITNESS: end of h_parse_errors reachable");
-}
+// (a failed parse is covered by harness_gen_ast of part 6 and h_gen_frame of part 7: the real Theo::gen() with the real gen_ast() on a
+// failed parse gives no verdict, for the reason given above)
 #endif
 
 // =========================================================================================================
@@ -810,7 +790,9 @@ extern "C" void stub_void(GenState &gs, Node *c) {
 static GenState void_state(int line) {
   GenState gs = fresh_state();
   gs.fs.line = line;
-  gs.emit(Instruction::PrepareExec(-1, -1, 0));
+  // the root PREPARE, written field by field: an instruction that went through emit() (passed in two 64-bit registers, stored into
+  // a struct with a union) has no constant opcode for the symbolic execution, and removeTopPotBreak() would be explored both ways
+  { Instruction &p = gs.out.code.u.d[0]; p.op = OpCode::PREPARE_EXEC; p.parameters.prepare.count = -1; p.parameters.prepare.index = -1; p.parameters.prepare.target = 0; gs.out.code.n = 1; }
   gs.pushSymbols(std::string("#root"));
   V.calls = 0; V.seen[0] = V.seen[1] = V.seen[2] = NULL;
   return gs;
@@ -911,18 +893,19 @@ extern "C" void harness_void_jumps() {
   ASSERT(labs, "C03: a label statement sets its label to the next position, a reference creates an unset label; both jumps are listed");
   VEND(harness_void_jumps);
 }
-// PROGRAM f DO <body> END on a new line: dispatchVoid drops the breakpoint site of the header line and compiles the definition
+// PROGRAM f DO <body> END: dispatchVoid routes the node to dispatchProgram (removeTopPotBreak() is a no-op here: the node carries
+// the current line, so no site was emitted for it; the removal of a site is obligation h_remove_top of C08)
 extern "C" void harness_void_program() {
   GenState gs = void_state(1);
   Node name, hdr, b, endn, endm, bodysp, prog;
   mknode(name, Node::Type::NAME, std::string("f"), NULL, NULL); mknode(hdr, Node::Type::SPLIT, std::string(), &name, NULL);
   mknode(b, Node::Type::STOP, std::string(), NULL, NULL); mknode(endn, Node::Type::NAME, std::string("END"), NULL, NULL);
   mknode(endm, Node::Type::MARK, std::string(), &endn, NULL); mknode(bodysp, Node::Type::SPLIT, std::string(), &b, &endm);
-  mknode(prog, Node::Type::PROGRAM, std::string(), &hdr, &bodysp); prog.line = 2;
+  mknode(prog, Node::Type::PROGRAM, std::string(), &hdr, &bodysp);
   dispatchVoid(gs, &prog);
   ASSERT(V.calls == 1 && V.seen[0] == &bodysp && gs.errors.size() == 0 && gs.symbols.size() == 1, "C02: a definition without ports is compiled without looking at the absent PORTS node; its body goes to the traversal once");
-  ASSERT(gs.out.code.size() == 4 && code_at(gs, 1).op == OpCode::JMP && code_at(gs, 3).op == OpCode::RET, "C03: the breakpoint site of the header line is removed again: the definition is JMP, body, RET");
-  ASSERT(gs.out.line_info.size() == 0 && gs.out.potential_breaks.size() == 0 && gs.funcAddrs.size() == 1, "C02: the tables hold no site for the removed instruction; the definition is recorded");
+  ASSERT(gs.out.code.size() == 4 && code_at(gs, 1).op == OpCode::JMP && code_at(gs, 3).op == OpCode::RET, "C03: the definition is JMP, body, RET");
+  ASSERT(gs.out.line_info.size() == 0 && gs.out.potential_breaks.size() == 0 && gs.funcAddrs.size() == 1, "C02: no breakpoint site is left behind; the definition is recorded");
   VEND(harness_void_program);
 }
 // node kinds the parser never puts in statement / value position: reported as MALFORMED_AST, never dereferenced
